@@ -365,6 +365,11 @@ def edits(spec, seed=0, max_depth=3):
             for a in TOP_ARCHES:
                 if a not in v["arches"]:
                     out.append(["arches", v["uid"], sorted(v["arches"] + [a])])
+                    # ... and one arch EXCHANGED for another (the set keeps its size)
+                    for old in v["arches"]:
+                        if old not in kids:
+                            out.append(["arches", v["uid"], sorted([x for x in v["arches"] if x != old] + [a])])
+                            break
                     break
     # a childless variant is taken out of the forest again
     for v, depth, _ in nodes:
